@@ -6,41 +6,6 @@ namespace SetOps
 variable {w : Nat} {L R : Type}
 open Tree Pfx
 
-/-- what `UnionItem` exposes: the reported prefix, the value(s) (with slot), and for one-sided items
-the longest-prefix match on the other side -/
-inductive UV (w : Nat) (L R : Type) where
-  | left (p : Pfx w) (l : Nat × L) (lpmR : Lpm w R)
-  | right (p : Pfx w) (lpmL : Lpm w L) (r : Nat × R)
-  | both (p : Pfx w) (l : Nat × L) (r : Nat × R)
-
-def UV.key : UV w L R → List Bool
-  | .left p _ _ => p.net
-  | .right p _ _ => p.net
-  | .both p _ _ => p.net
-
-/-- the view of a yielded machine item -/
-def UItem.view (it : UItem w L R) : Option (UV w L R) :=
-  match it.l, it.r with
-  | some l, none => some (.left it.p l it.lpmR)
-  | none, some r => some (.right it.p it.lpmL r)
-  | some l, some r => some (.both it.p l r)
-  | none, none => none
-
-def mkLeft (fL : Pfx w → Lpm w R) (a : Nat × Pfx w × L) : UV w L R := .left a.2.1 (a.1, a.2.2) (fL a.2.1)
-def mkRight (fR : Pfx w → Lpm w L) (b : Nat × Pfx w × R) : UV w L R := .right b.2.1 (fR b.2.1) (b.1, b.2.2)
-
-/-- union, specification: the sorted merge of the two (key-sorted) entry lists; a key stored on both
-sides gives one `both` item (reporting the left operand's stored prefix); one-sided items are
-annotated by `fL` / `fR` -/
-def unionS (fL : Pfx w → Lpm w R) (fR : Pfx w → Lpm w L) : KL w L → KL w R → List (UV w L R)
-  | [], bs => bs.map (mkRight fR)
-  | a :: as, [] => (a :: as).map (mkLeft fL)
-  | a :: as, b :: bs =>
-    if keyOf a = keyOf b then .both a.2.1 (a.1, a.2.2) (b.1, b.2.2) :: unionS fL fR as bs
-    else if Spec.keyLt (keyOf a) (keyOf b) then mkLeft fL a :: unionS fL fR as (b :: bs)
-    else mkRight fR b :: unionS fL fR (a :: as) bs
-termination_by as bs => as.length + bs.length
-
 variable (fL : Pfx w → Lpm w R) (fR : Pfx w → Lpm w L)
 
 theorem unionS_nil_left (bs : KL w R) : unionS fL fR ([] : KL w L) bs = bs.map (mkRight fR) := by
